@@ -339,16 +339,16 @@ func newContext(dbase db.Database, ws ...module.Wallet) (*dsContext, error) {
 
 func sizes(tier string) (cases, logSeqs, preVal int) {
 	if tier == ev.Thorough {
-		return 1600, 40, 3000
+		return 800, 40, 3000
 	}
 	return 32, 24, 1500
 }
 
 func init() {
 	ev.Register(&ev.Prop{
-		ID:    "C06",
-		Level: "exploration",
-		Cases: func(t string) int { c, _, _ := sizes(t); return c },
+		ID:      "C06",
+		Level:   "exploration",
+		Cases:   func(t string) int { c, _, _ := sizes(t); return c },
 		Batches: func(t string) int { return 16 },
 		Rule: "each case draws two keys, a height h, round r, two different non-zero network ids N,M, two blocks and a timestamp from the PRNG and builds the full message matrix " +
 			"signer{k1,k2} x height{h,h+1} x round{r,r+1} x {prevote,precommit,proposal} x nid{unspecified,N,M} x block{A,B,nil | A,B,A-other-POL} x timestamp{t,t+1} " +
@@ -358,7 +358,7 @@ func init() {
 			"Non-trivial = distinct ordered pair (by message bytes, per entry point) that is genuine evidence by the model, or misses it by exactly one condition.",
 		MinNonTrivial: func(t string) int {
 			if t == ev.Thorough {
-				return 1000000
+				return 500000
 			}
 			return 200000
 		},
@@ -376,6 +376,12 @@ func init() {
 			"network id 0 / absent / undecodable means 'unspecified' (consensus.matchNID)",
 			"PreValidate runs on a real state.WorldContext over an empty MapDB with a platform stub that enables all revisions and installs consensus.DecodeDoubleSignData as icon/platform.go does",
 			"service.dsrManager.Add and contract.DSRHandler call the same IsConflictWith and are not driven separately",
+		},
+		TimeoutSec: func(t string) int {
+			if t == ev.Thorough {
+				return 3600
+			}
+			return 900
 		},
 		Run: run,
 	})
